@@ -91,5 +91,8 @@ void harness(void)
     eav_free(&e);
     VF_ASSERT(e.result == NULL, "C13: eav_free releases the result");
     VF_FORGET(cb_last_result);
+#ifdef HAVE_IDNKIT
+    VF_ASSERT(ik_live == 0 && !ik_bad_destroy && !cb_bad_ctx, "C18: the IDN context is released exactly once by eav_free and was live when used");
+#endif
     VF_END();
 }
